@@ -181,6 +181,19 @@ def build_impl(s):
                 else:
                     for j, v in enumerate(np_labels(l, k)):
                         a.axes[i][j] = v
+        elif var == "shallow":
+            # a shallow copy (copy(shallow=True), the documented way "to overwrite attributes without affecting the initial array") of an array
+            # that was USED under other labels - every along-axis method called once - and that then gets its own axes
+            old = [list(l[1:]) + list(l[:1]) for l in s["labels"]]
+            a0 = DimArray(vals, axes=_axes(s, old))
+            for f in ("sum", "prod", "mean", "var", "std", "min", "max", "ptp", "all", "any", "median", "cumsum", "cumprod", "argmin", "argmax", "diff"):
+                try:
+                    getattr(a0, f)(axis=0)
+                    getattr(a0, f)()
+                except Exception:
+                    pass
+            a = a0.copy(shallow=True)
+            a.axes = _axes(s)
         else:
             raise ValueError(var)
         for k, v in (s.get("attrs") or {}).items():
@@ -192,7 +205,7 @@ def build_impl(s):
         common.reset_options()
 
 
-VARIANTS = ["fresh", "T", "slice", "take", "ds", "mono", "relabel"]
+VARIANTS = ["fresh", "T", "slice", "take", "ds", "mono", "relabel", "shallow"]
 
 
 def compare(impl, ref, rtol=0.0, attrs=False, dtype_kind=None, axattrs=False, what="result"):
